@@ -556,7 +556,8 @@ def r8_eat_loops_terminate(a, tier):
 # functions of the standard library (and their repo wrappers) that turn TEXT into a value, with the exceptions they raise on text
 # that is not in their language (trusted base: CPython 3.12 documentation and behaviour)
 CONVERTERS = {
-    're.compile': ('re.error', 'OverflowError'), 'cached_re_compile': ('re.error', 'OverflowError'),
+    # re.compile: re.error for a malformed pattern, OverflowError for a huge repeat count, ValueError for incompatible inline flags (`(?u)(?a)x`)
+    're.compile': ('re.error', 'OverflowError', 'ValueError'), 'cached_re_compile': ('re.error', 'OverflowError', 'ValueError'),
     'eval_escapes': ('UnicodeDecodeError',), 'codecs.decode': ('UnicodeDecodeError',),
     'int': ('ValueError',), 'float': ('ValueError',), 'literal_eval': ('SyntaxError', 'ValueError'),
 }
